@@ -17,14 +17,33 @@ violation (the objects are re-created deterministically from the description in 
     K.replace_labelling_function(L) (new dict, optionally with states sharing ONE set object, with omitted states
     and with an extra key that is not a state).  A relabel is the caller's change, not the library's: the model
     presentation and the snapshot baseline of that structure are refreshed, and every LATER call must equal the
-    model on the CURRENT labelling (a relabel is usually followed by re-issuing earlier calls on that structure).
+    model on the CURRENT labelling (a relabel is usually followed by re-issuing earlier calls on that structure);
+  * or an EDIT: the CALLER changes the TRANSITIONS / STATES / initial states of a pool structure through the public
+    routes K.add_edge(a, b) (between existing states), K.next(a) (live successor set: add / discard, never the last
+    successor), a NEW STATE with its edges (K.add_node / K.add_edge creating it, in-edges, out-edges and
+    K.labelling_function()[n] = set(..) in varying order; one step, so that the structure is total and fully
+    labelled at every call) and K.S0 (add / discard).  Treated exactly as a relabel: presentation and baseline are
+    refreshed, later calls must equal the model on the structure AS IT IS NOW, earlier calls are re-issued.  In the
+    general histories edits are rare; the EVOLVING-DESIGN stream is made of them: 2 small structures that the caller
+    keeps editing (30% of the steps), most earlier calls re-issued after every change, formulas mostly one CTL
+    operator (EX / AX, EG, EU, ..) over propositional operands, F=None in 75% of the calls;
+  * or a REBUILD: the caller DISCARDS the structure of a pool slot (it is garbage before the next one is built) and
+    builds another small structure in that slot - a loop over candidate designs.  The CHURN stream consists of such
+    loops: 8-16 short-lived structures of 1-3 states, one after the other in 1-2 slots, each queried once or twice
+    (mostly EX / AX-type formulas, all three logics) and compared with the model; how often the new object got the
+    address of the discarded one is reported as coverage (anything keyed by id(K) that outlives a call).
 After every call a deep snapshot (contents AND identities) of EVERY pool structure and EVERY pool formula object is
 compared with its baseline; every result is compared with the answer of the extracted model for that call IN
 ISOLATION on the presentation of the structure that is current at that step (the model is a pure function, so any
 dependence on the history shows as a difference).  The model command of a step is produced DURING execution, in
 step order, by the interpreter that executes the step.  A failing step is re-run in FRESH interpreters (which report
 observations and their own model commands, so expectations are re-derived for every candidate) and the history is
-shrunk to a minimal one."""
+shrunk to a minimal one (candidates whose caller steps are no longer applicable - an edit of a state that was never
+added - are skipped).
+ORDER INDEPENDENCE (model-free): look-alike formula pairs (f, f') with one subformula replaced by an atom named like its
+printed form, executed in two fresh interpreters in opposite orders; a third of the pairs are CTL pairs in which a
+whole CTL STATE subformula (Or(p,q) -> atom '(p or q)', E X p -> atom named like it) is replaced, so that both
+members go through CTL.modelcheck on the same live structure."""
 from common import *
 from mccheck import *
 LEVEL = 'proof'
@@ -220,6 +239,21 @@ def gen_formula(rng, kind):
             o = rng.choice(['X', 'F', 'G', 'U', 'R'])
             a, b = rand_pl(rng, 1), rand_pl(rng, 1)
             return ('A', (o, a) if o in 'XFG' else (o, a, b))
+        elif kind == 'CTLOP':    # one CTL operator over propositional operands: the answer is sensitive to single transitions
+            o = rng.choice(['X', 'F', 'G', 'G', 'U', 'R'])
+            a, b = rand_pl(rng, 1), rand_pl(rng, 1)
+            return (rng.choice('AE'), (o, a) if o in 'XFG' else (o, a, b))
+        elif kind == 'NEXT':     # EX / AX-type: one step along the transitions (A X g is in all three logics, E X g in CTL and CTL*)
+            g = rand_pl(rng, 1)
+            if rng.random() < 0.3:
+                g = (rng.choice('AE'), ('X', g))
+            f = (rng.choice('AEE'), ('X', g))
+            r = rng.random()
+            if r < 0.15:
+                f = ('not', f)
+            elif r < 0.3:
+                f = (rng.choice(['or', 'and']), f, rand_leaf(rng, ('p', 'q')))
+            return f
         else:                    # genuine CTL*: not CTL, not LTL, a quantifier nested below a quantifier
             f = rand_ctls_state(rng, rng.randint(2, 3))
             if (not is_ctl_state(f) and not is_ltl_state(f) and n_quant(f) >= 2 and 1 <= n_temporal(f) <= 5
@@ -242,11 +276,11 @@ def objstates_of(desc, si):
     return (desc.get('objstates') or [False] * (si + 1))[si]
 
 
-def gen_F(rng, states, objstates=False):
+def gen_F(rng, states, objstates=False, p_none=0.5):
     r = rng.random()
-    if r < 0.5 or objstates in ('id', True):
+    if r < p_none or objstates in ('id', True):
         return None
-    if r < 0.62:
+    if r < p_none + 0.12:
         return []
     if not objstates and rng.random() < 0.3:
         # a fairness set may mention states of ANOTHER structure of the caller (one F for a family of structures): they are simply
@@ -271,18 +305,21 @@ def gen_Fform(rng, st):
     return st
 
 
-def gen_step(rng, desc, p_text, p_textp):
+def gen_step(rng, desc, p_text, p_textp, sims=None, si=None, p_none=0.5):
+    """`sims`: the generator's picture of the structures as they are NOW (states of a fairness argument are taken from it)"""
     fi = rng.randrange(len(desc['formulas']))
     f = desc['formulas'][fi]
-    si = rng.randrange(len(desc['structs']))
+    if si is None:
+        si = rng.randrange(len(desc['structs']))
+    states = sims[si].S if sims is not None else desc['structs'][si]['S']
     ok = [l for l in LOGICS if in_logic(l, f)]
     if rng.random() < 0.04:
         bad = [l for l in LOGICS if l not in ok]
         if bad:      # out-of-logic object: documented TypeError, must be just as pure
             return gen_Fform(rng, {'logic': rng.choice(bad), 's': si, 'f': fi, 'mode': 'obj:CTLS',
-                                   'F': gen_F(rng, desc['structs'][si]['S'], objstates_of(desc, si))})
+                                   'F': gen_F(rng, states, objstates_of(desc, si), p_none)})
     logic = rng.choice(ok)
-    F = gen_F(rng, desc['structs'][si]['S'], objstates_of(desc, si))
+    F = gen_F(rng, states, objstates_of(desc, si), p_none)
     r = rng.random()
     if r < p_text:
         mode = 'text'
@@ -315,15 +352,46 @@ ATOMS = ('p', 'q')
 
 
 class SimK:
-    """plain-Python stand-in for the label API of a Kripke object (a dict of sets, with the same aliasing): the
-    generator tracks the current labelling with it so that relabel steps are effective"""
+    """plain-Python stand-in for the label and transition API of a Kripke object (a dict of label sets with the same
+    aliasing, a dict of successor sets, S0): the generator tracks the current structure with it so that relabel and edit
+    steps are effective and applicable"""
 
-    def __init__(self, states, L, aliased=False):
-        self.S = list(states)
-        self.L = {s: set(L.get(s, ())) for s in self.S}
+    def __init__(self, states, L, aliased=False, R=(), S0=()):
+        self.N = {s: set() for s in states}
+        for a, b in R:
+            self.N.setdefault(a, set()).add(b)
+            self.N.setdefault(b, set())
+        self.S0 = set(S0)
+        self.L = {s: set(L.get(s, ())) for s in self.N}
         if aliased:
             groups = {}
             self.L = {s: groups.setdefault(frozenset(v), v) for s, v in self.L.items()}
+
+    @property
+    def S(self):
+        return list(self.N)
+
+    def add_node(self, v):
+        if v in self.N:
+            raise RuntimeError('already a node')
+        self.N[v] = set()
+
+    def add_edge(self, a, b):
+        if a not in self.N:
+            self.N[a] = set()
+        elif b in self.N[a]:
+            raise RuntimeError('already an edge')
+        if b not in self.N:
+            self.add_node(b)
+        self.N[a].add(b)
+
+    def next(self, a):
+        return self.N[a]
+
+    def ok(self):
+        """total, closed, fully labelled: a structure a modelcheck call may be given"""
+        return (all(ds and ds <= set(self.N) for ds in self.N.values()) and all(s in self.L for s in self.N)
+                and self.S0 <= set(self.N))
 
     def labels(self, s):
         return self.L[s]
@@ -368,6 +436,114 @@ def apply_relabel(K, st, state=lambda i: i):
         raise ValueError('unknown relabel route %r' % (r,))
 
 
+def sim_of(struct, aliased=False):
+    return SimK(struct['S'], {int(k): v for k, v in struct['L'].items()}, aliased, [tuple(e) for e in struct['R']], struct['S0'])
+
+
+def sims_of(desc):
+    return [sim_of(s, a) for s, a in zip(desc['structs'], desc.get('alias') or [False] * len(desc['structs']))]
+
+
+# ---- edit steps: the caller changes transitions / states / initial states --------------------
+MAX_STATES = 6
+
+
+def apply_edit(K, st, state=lambda i: i):
+    """the caller changes the transitions / states of K (a live Kripke object, or a SimK) through public routes"""
+    for op in st['ops']:
+        k = op[0]
+        if k == 'add_edge':
+            K.add_edge(state(op[1]), state(op[2]))
+        elif k == 'add_node':
+            K.add_node(state(op[1]))
+        elif k == 'next.add':
+            K.next(state(op[1])).add(state(op[2]))
+        elif k == 'next.discard':
+            K.next(state(op[1])).discard(state(op[2]))
+        elif k == 'label':
+            K.labelling_function()[state(op[1])] = set(op[2])
+        elif k == 'init':
+            (K.S0.add if op[2] else K.S0.discard)(state(op[1]))
+        else:
+            raise ValueError('unknown edit op %r' % (op,))
+
+
+def gen_edit(rng, si, sim):
+    """always an effective change that leaves the structure total and fully labelled"""
+    S = sim.S
+    missing = [(a, b) for a in S for b in S if b not in sim.N[a]]
+    removable = [(a, b) for a in S for b in sorted(sim.N[a]) if len(sim.N[a]) >= 2]
+    r = rng.random()
+    order = ['add', 'remove', 'new', 'init']
+    first = 'add' if r < 0.4 else 'remove' if r < 0.62 else 'new' if r < 0.9 else 'init'
+    order.remove(first)
+    for what in [first] + order:
+        if what == 'add' and missing:
+            es = rng.sample(missing, 2 if len(missing) >= 2 and rng.random() < 0.25 else 1)
+            ops = [['add_edge' if rng.random() < 0.7 else 'next.add', a, b] for a, b in es]
+        elif what == 'remove' and removable:
+            a, b = rng.choice(removable)
+            ops = [['next.discard', a, b]]
+            if missing and rng.random() < 0.3:       # an edge moved
+                c = rng.choice([m for m in missing if m[0] == a] or missing)
+                ops.insert(rng.randrange(2), ['add_edge', c[0], c[1]])
+        elif what == 'new' and len(S) < MAX_STATES:
+            n = max(S) + 1
+            outs = rng.sample(S + [n], rng.randint(1, 2))
+            ins = rng.sample(S, rng.randint(0 if rng.random() < 0.2 else 1, min(2, len(S))))
+            edges = [['add_edge', n, d] for d in outs] + [['add_edge', a, n] for a in ins]
+            form = rng.choice(['node', 'out', 'in'] if ins else ['node', 'out'])
+            if form == 'node':
+                rng.shuffle(edges)
+                ops = [['add_node', n]] + edges
+            else:
+                head = edges[0] if form == 'out' else edges[len(outs)]
+                rest = [e for e in edges if e is not head]
+                rng.shuffle(rest)
+                ops = [head] + rest
+            ops.insert(rng.randint(0, len(ops)), ['label', n, sorted(a for a in ATOMS if rng.random() < 0.5)])
+            if rng.random() < 0.15:
+                ops.append(['init', n, True])
+        elif what == 'init':
+            s = rng.choice(S)
+            ops = [['init', s, s not in sim.S0]]
+        else:
+            continue
+        return {'kind': 'edit', 's': si, 'ops': ops}
+
+
+def gen_rebuild(rng, si, maxn=4):
+    """the caller discards the structure of slot si and builds another one there"""
+    return {'kind': 'rebuild', 's': si, 'struct': kd_json(rand_kripke(rng, rng.randint(1, maxn)))}
+
+
+def valid_history(desc, hist):
+    """are all caller steps applicable in this order, and is every structure total and fully labelled after each of them?
+    (a shrink candidate that dropped the step which added a state is not a history of the caller)"""
+    try:
+        sims = sims_of(desc)
+        alias = desc.get('alias') or [False] * len(sims)
+        for st in hist:
+            k, si = st.get('kind', 'call'), st['s']
+            if k == 'call':
+                if st['F'] is not None and objstates_of(desc, si) and not all(x in sims[si].N for P in st['F'] for x in P):
+                    return False
+                continue
+            if k == 'relabel':
+                if 'state' in st and st['state'] not in sims[si].N:
+                    return False
+                apply_relabel(sims[si], st)
+            elif k == 'edit':
+                apply_edit(sims[si], st)
+            elif k == 'rebuild':
+                sims[si] = sim_of(st['struct'], alias[si])
+            if not sims[si].ok():
+                return False
+        return True
+    except Exception:  # noqa
+        return False
+
+
 def gen_relabel(rng, si, sim):
     s = rng.choice(sim.S)
     cur = sim.L[s]
@@ -398,31 +574,43 @@ def gen_relabel(rng, si, sim):
     return st
 
 
-def gen_history(rng, desc, maxlen, p_text, p_textp, p_relabel=0.0):
+def gen_history(rng, desc, maxlen, p_text, p_textp, p_relabel=0.0, p_edit=0.0, p_rebuild=0.0, reissue=(0, 1, 1, 2, 2, 3), p_none=0.5):
     n = rng.randint(2, maxlen)
     hist, queue = [], []
-    sims = [SimK(s['S'], {int(k): v for k, v in s['L'].items()}, a)
-            for s, a in zip(desc['structs'], desc.get('alias') or [False] * len(desc['structs']))]
+    sims = sims_of(desc)
+    alias = desc.get('alias') or [False] * len(sims)
+    def applicable(c):
+        """(after a rebuild of a slot with state OBJECTS) F names only states the structure has now"""
+        return c['F'] is None or not objstates_of(desc, c['s']) or all(x in sims[c['s']].N for P in c['F'] for x in P)
     while len(hist) < n or queue:
         calls = [st for st in hist if is_call(st)]
+        if p_rebuild:
+            calls = [c for c in calls if applicable(c)]
         if queue:
             hist.append(queue.pop(0))
             continue
         r = rng.random()
-        if calls and r < p_relabel:
-            # mostly a structure that was queried already; afterwards re-issue earlier calls on it
+        if calls and r < p_relabel + p_edit + p_rebuild:
+            # the caller changes (or replaces) a structure, mostly one that was queried already; afterwards re-issue earlier calls on it
             si = rng.choice(calls)['s'] if rng.random() < 0.8 else rng.randrange(len(sims))
-            st = gen_relabel(rng, si, sims[si])
-            apply_relabel(sims[si], st)
+            if r < p_relabel:
+                st = gen_relabel(rng, si, sims[si])
+                apply_relabel(sims[si], st)
+            elif r < p_relabel + p_edit:
+                st = gen_edit(rng, si, sims[si])
+                apply_edit(sims[si], st)
+            else:
+                st = gen_rebuild(rng, si)
+                sims[si] = sim_of(st['struct'], alias[si])
             hist.append(st)
             earlier, seen = [], set()
             for c in calls:
                 k = json.dumps(c, sort_keys=True)
-                if c['s'] == si and k not in seen:
+                if c['s'] == si and k not in seen and applicable(c):
                     seen.add(k)
                     earlier.append(c)
             rng.shuffle(earlier)
-            k = rng.choice([0, 1, 1, 2, 2, 3])
+            k = rng.choice(list(reissue))
             queue = [dict(c) for c in earlier[:k]]
             continue
         r = rng.random()
@@ -436,8 +624,39 @@ def gen_history(rng, desc, maxlen, p_text, p_textp, p_relabel=0.0):
                 st['mode'] = 'obj' if st['mode'] != 'obj' else 'text'
             hist.append(st)
         else:
-            hist.append(gen_step(rng, desc, p_text, p_textp))
+            hist.append(gen_step(rng, desc, p_text, p_textp, sims, p_none=p_none))
     return hist
+
+
+def gen_evolving(rng):
+    """a design that evolves: 2 structures that the caller keeps editing (transitions, new states; some relabels), queried
+    before and after every change (2-6 of the distinct earlier calls on a structure are re-issued after each change of it) with a small pool of formulas, half of them one CTL operator (EX / AX, EG, EU, ..) over
+    propositional operands"""
+    desc = {'structs': [kd_json(rand_kripke(rng, rng.randint(1, 3), maxdeg=2)) for _ in range(2)],
+            'formulas': [gen_formula(rng, k) for k in ('NEXT', 'NEXT', 'CTLOP', 'CTLOP', 'CTLOP', 'ALL', 'CTL', 'LTL', 'CTLS')],
+            'alias': [rng.random() < 0.25 for _ in range(2)],
+            'objstates': [rng.choice(['id', 'hash']) if rng.random() < 0.25 else False for _ in range(2)]}
+    return desc, gen_history(rng, desc, 24, 0.12, 0.08, 0.06, 0.3, 0.02, reissue=(2, 4, 6, 6), p_none=0.75)
+
+
+def gen_churn(rng):
+    """a loop over short-lived structures: 1-2 slots, 8-16 small designs built one after the other, each queried once or twice"""
+    ns = rng.choice([1, 1, 2])
+    desc = {'structs': [kd_json(rand_kripke(rng, rng.randint(1, 3))) for _ in range(ns)],
+            'formulas': [gen_formula(rng, k) for k in ('NEXT', 'NEXT', 'NEXT', 'ALL', 'CTL', 'LTL', 'CTLS')],
+            'alias': [rng.random() < 0.2 for _ in range(ns)],
+            'objstates': [rng.choice(['id', 'hash']) if rng.random() < 0.2 else False for _ in range(ns)]}
+    sims = sims_of(desc)
+    hist = []
+    for d in range(rng.randint(8, 16)):
+        si = rng.randrange(ns)
+        if d >= ns or rng.random() < 0.5:
+            st = gen_rebuild(rng, si, 3)
+            sims[si] = sim_of(st['struct'], desc['alias'][si])
+            hist.append(st)
+        for _ in range(rng.choice([1, 1, 1, 2])):
+            hist.append(gen_step(rng, desc, 0.15, 0.1, sims, si))
+    return desc, hist
 
 
 TEXTOP = {'not': 'not', 'or': 'or', 'and': 'and', 'imp': '-->'}
@@ -485,17 +704,10 @@ class Pool:
         alias = desc.get('alias') or [False] * len(desc['structs'])
         objst = desc.get('objstates') or [False] * len(desc['structs'])
         self.K, self.site, self.byid = [], [], []
+        self.alias, self.objst = list(alias), list(objst)
+        self.rebuilds = self.rebuilds_same_address = 0
         for s, a, ob in zip(desc['structs'], alias, objst):
-            kd = kd_from_json(s)
-            site = byid = None
-            if ob:      # the same structure over fresh identity-hashed state objects; bijection int <-> object
-                ints = list(kd['S']) + [x for e in kd['R'] for x in e if x not in kd['S']]
-                site = {}
-                for i in ints:
-                    site.setdefault(i, SITE_CLASS[ob](i))
-                byid = {id(o): i for i, o in site.items()}
-                kd = {'S': [site[i] for i in kd['S']], 'S0': [site[i] for i in kd['S0']],
-                      'R': [(site[x], site[y]) for x, y in kd['R']], 'L': {site[i]: v for i, v in kd['L'].items()}}
+            kd, site, byid = self.prepare(s, ob)
             self.K.append((kd_py_aliased if a else kd_py)(kd))
             self.site.append(site)
             self.byid.append(byid)
@@ -506,6 +718,21 @@ class Pool:
         self.base_f = {}
         self.texts = {}
         self.Fobjs = {}
+
+    @staticmethod
+    def prepare(s, ob):
+        """constructor arguments of the structure described by s (+ the bijection int <-> state object)"""
+        kd = kd_from_json(s)
+        site = byid = None
+        if ob:      # the same structure over fresh identity-hashed state objects; bijection int <-> object
+            ints = list(kd['S']) + [x for e in kd['R'] for x in e if x not in kd['S']]
+            site = {}
+            for i in ints:
+                site.setdefault(i, SITE_CLASS[ob](i))
+            byid = {id(o): i for i, o in site.items()}
+            kd = {'S': [site[i] for i in kd['S']], 'S0': [site[i] for i in kd['S0']],
+                  'R': [(site[x], site[y]) for x, y in kd['R']], 'L': {site[i]: v for i, v in kd['L'].items()}}
+        return kd, site, byid
 
     def state(self, si, i):
         """the state of structure si that the description calls i"""
@@ -586,6 +813,37 @@ class Pool:
         self.ks[i] = self.sx(i)
         self.base_k[i] = snap_kripke(self.K[i])
 
+    def edit(self, st):
+        """the CALLER changes transitions / states / initial states of a pool structure: new presentation, new baseline"""
+        i = st['s']
+        if self.site[i] is not None:       # state objects for the ints that are new
+            for op in st['ops']:
+                for x in op[1:3]:
+                    if isinstance(x, int) and not isinstance(x, bool) and x not in self.site[i]:
+                        o = SITE_CLASS[self.objst[i]](x)
+                        self.site[i][x] = o
+                        self.byid[i][id(o)] = x
+        apply_edit(self.K[i], st, lambda x: self.state(i, x))
+        self.ks[i] = self.sx(i)
+        self.base_k[i] = snap_kripke(self.K[i])
+
+    def rebuild(self, st):
+        """the CALLER discards the structure of slot i - nothing of the caller refers to it any more when the next one is built -
+        and builds another one there: new presentation, new baseline"""
+        i = st['s']
+        kd, site, byid = self.prepare(st['struct'], self.objst[i])
+        make = kd_py_aliased if self.alias[i] else kd_py
+        for k in [k for k in self.Fobjs if k[2] == i]:
+            del self.Fobjs[k]              # fairness containers over the state OBJECTS of the discarded structure
+        old = id(self.K[i])
+        self.K[i] = None
+        self.K[i] = make(kd)
+        self.rebuilds += 1
+        self.rebuilds_same_address += (id(self.K[i]) == old)     # coverage only
+        self.site[i], self.byid[i] = site, byid
+        self.ks[i] = self.sx(i)
+        self.base_k[i] = snap_kripke(self.K[i])
+
     def model_cmd(self, st):
         """the model's view of a call, with the presentation of the structure that is current NOW"""
         f = self.F[st['f']]
@@ -613,8 +871,16 @@ def exec_step(pool, st, kept):
     """one step on the caller's objects; observation = result + what changed; also the model command of the step
     (None for a relabel), produced BEFORE the call from the presentation that is current at this step"""
     if not is_call(st):
-        pool.relabel(st)
-        return {'res': list(RELABEL_RES), 'notes': pool.changes(), 'labelling_now': sx_str(pool.ks[st['s']][2])}, None
+        if st['kind'] == 'relabel':
+            pool.relabel(st)
+            return {'res': list(RELABEL_RES), 'notes': pool.changes(), 'labelling_now': sx_str(pool.ks[st['s']][2])}, None
+        if st['kind'] == 'edit':
+            pool.edit(st)
+        elif st['kind'] == 'rebuild':
+            pool.rebuild(st)
+        else:
+            raise ValueError('unknown step kind %r' % (st['kind'],))
+        return {'res': list(RELABEL_RES), 'notes': pool.changes(), 'structure_now': sx_str(pool.ks[st['s']])}, None
     cmd = sx_str(pool.model_cmd(st))
     L = lang_module(st['logic'])
     K = pool.K[st['s']]
@@ -712,9 +978,15 @@ def step_fails(o, exp):
 
 
 def relabels_and_last(hist):
-    """the failing call 'alone': only the caller's own relabelling of that structure before it"""
+    """the failing call 'alone': only the caller's own relabelling / editing of that structure before it (from the last
+    rebuild of that slot on)"""
     last = hist[-1]
-    return [st for st in hist[:-1] if not is_call(st) and st['s'] == last['s']] + [last]
+    own = [st for st in hist[:-1] if not is_call(st) and st['s'] == last['s']]
+    for i in range(len(own) - 1, -1, -1):
+        if own[i]['kind'] == 'rebuild':
+            own = own[i:]
+            break
+    return own + [last]
 
 
 def shrink(desc, hist, earlier):
@@ -729,6 +1001,8 @@ def shrink(desc, hist, earlier):
     def fails(pre, h):
         if time.time() > t_end:          # out of budget: keep what we have
             return False, None, None
+        if not valid_history(desc, h) or not all(valid_history(e['pool'], e['hist']) for e in pre):
+            return False, None, None     # not a history of the caller (e.g. an edit of a state whose creation was dropped)
         o, c = exec_history_fresh(desc, h, pre)
         if len(o) != len(h):
             return False, o, None
@@ -792,6 +1066,22 @@ def kname(desc, si):
 
 def step_str(desc, st):
     K = kname(desc, st['s'])
+    if st.get('kind') == 'edit':
+        def one(op):
+            k = op[0]
+            if k in ('add_edge', 'add_node'):
+                return '%s.%s(%s)' % (K, k, ', '.join(map(str, op[1:])))
+            if k.startswith('next.'):
+                return '%s.next(%s).%s(%s)' % (K, op[1], k[5:], op[2])
+            if k == 'label':
+                return '%s.labelling_function()[%s] = set(%s)' % (K, op[1], op[2])
+            return '%s.S0.%s(%s)' % (K, 'add' if op[2] else 'discard', op[1])
+        return 'caller: ' + '; '.join(one(op) for op in st['ops'])
+    if st.get('kind') == 'rebuild':
+        j = st['struct']
+        return 'caller: discards %s; %s = Kripke(S=%s, S0=%s, R=%s, L=%s)%s' % (
+            K, K, j['S'], j['S0'], [tuple(e) for e in j['R']], {int(k): v for k, v in j['L'].items()},
+            ' (labels re-installed with shared set objects)' if (desc.get('alias') or [False] * (st['s'] + 1))[st['s']] else '')
     if not is_call(st):
         r = st['route']
         if r == 'replace':
@@ -831,23 +1121,37 @@ def order_independence(R):
     (so f and f' print alike: the library compares formulas by printed form, known finding KF-print-a - per call, which is
     deterministic).  The same calls are executed in a fresh interpreter in one order and in another fresh interpreter in the
     reversed order: every call must return the same answer in both (anything keyed by formulas that outlives a call - a
-    module-level closure / result table - makes the later look-alike inherit the earlier one's entry)"""
+    module-level closure / result table, a memo table kept per structure - makes the later look-alike inherit the earlier
+    one's entry).  Every third pair is a CTL pair: a whole CTL STATE subformula h (a connective, or a quantified
+    subformula) of a CTL formula is replaced, so that f' is in CTL as well and both go through CTL.modelcheck (when h is
+    a path operator - the usual case otherwise - f' = E(atom) is outside CTL)"""
     rng = random.Random(R.seed + 707)
-    nb = 0
+    nb = npairs = nctl = 0
     for ep in range(8 if R.thorough else 3):
         structs = [kd_json(rand_kripke(rng, rng.randint(2, 4))) for _ in range(3)]
         forms, hist = [], []
-        for _ in range(12):
-            kind = rng.choice(['LTL', 'LTL', 'CTL', 'CTLS'])
-            f = gen_formula(rng, kind)
-            logic = rng.choice([l for l in LOGICS if in_logic(l, f)])
-            subs = [h for h in subformulas(f) if h[0] not in ('ap', 'true', 'false') and h != f and h[0] not in ('A', 'E')]
+        for pi in range(12):
+            if pi % 3 == 0:
+                while True:
+                    f = gen_formula(rng, 'CTL')
+                    subs = [h for h in subformulas(f) if h[0] in ('not', 'or', 'and', 'imp', 'A', 'E') and h != f]
+                    if subs:
+                        break
+                logic = 'CTL'
+            else:
+                kind = rng.choice(['LTL', 'LTL', 'CTL', 'CTLS'])
+                f = gen_formula(rng, kind)
+                logic = rng.choice([l for l in LOGICS if in_logic(l, f)])
+                subs = [h for h in subformulas(f) if h[0] not in ('ap', 'true', 'false') and h != f and h[0] not in ('A', 'E')]
             pair = [f]
             if subs:
                 h = rng.choice(subs)
                 nm = call(lambda: str(to_py(h, lang_module(logic))))
                 if nm[0] == 'ok':
                     pair.append(_replace_sub(f, h, ('ap', nm[1])))
+            both = len(pair) == 2 and all(in_logic(logic, g) for g in pair)
+            npairs += both
+            nctl += both and logic == 'CTL'
             for g in pair:
                 if not in_logic(logic, g):
                     continue
@@ -872,7 +1176,8 @@ def order_independence(R):
                                  'answer_in_this_order': a['res'], 'answer_in_reversed_order': b['res']})
             else:
                 R.count('order_independent_calls')
-    R.cov['order_independence'] = {'differences': nb}
+    R.cov['order_independence'] = {'differences': nb, 'look_alike_pairs_with_both_members_called': npairs,
+                                   'of_which_both_through_CTL.modelcheck': nctl}
 
 
 def run(R):
@@ -894,19 +1199,41 @@ def run(R):
               'the result compared with the extracted model on that call in isolation on the CURRENT presentation (with F: the faithful model of '
               "the library's reduction); every text is also parsed by the MODEL parser of the language whose parser is used and must yield the "
               'formula the model checker is given; non-trivial = a history in which the same (structure, formula) is queried at least twice with '
-              'other steps in between and a CTL* or fairness call occurred; distinct by (pool, history)')
+              'other steps in between and a CTL* or fairness call occurred; distinct by (pool, history).  EDIT steps (quick 8% / thorough 4%): '
+              'the caller changes transitions / states of a pool structure: K.add_edge between existing states, K.next(a).add / .discard '
+              '(live successor set; never the last successor), a NEW state (<= 6 states) with 1-2 out-edges, 0-2 in-edges and its label set '
+              '(K.add_node / K.add_edge creating it / K.labelling_function()[n] = .. in varying order, one step), K.S0.add / .discard; REBUILD '
+              'steps (2% / 1%): the caller discards the structure of a slot and builds another random one there; both are handled like a relabel '
+              '(presentation and baseline re-read, earlier calls on that slot re-issued, model on the structure as it is NOW).  EVOLVING-DESIGN '
+              'stream (quick 120 / thorough 400 episodes): 2 structures of 1-3 states (growing to <= 6), histories of <= 24 steps with 30% edits, '
+              '6% relabels, 2% rebuilds, 2-6 of the distinct earlier calls on the changed structure re-issued after every change, F=None in 75% '
+              'of the calls, pool = 2 EX/AX-type + 3 one-CTL-operator-over-propositional-operands + 1 A-op + 1 CTL + 1 LTL + 1 CTL* formula.  '
+              'CHURN stream (quick 40 / thorough 300 episodes): 1-2 slots, 8-16 short-lived structures of 1-3 states built one after the other (each garbage '
+              'before the next is built; the share that got the address of its predecessor is in cov), each queried 1-2 times with a pool of 3 '
+              'EX/AX-type formulas + 1 A-op + 1 CTL + 1 LTL + 1 CTL* formula, every answer compared with the model.  ORDER INDEPENDENCE '
+              '(model-free, quick 3 / thorough 8 episodes of 12 look-alike pairs (f, f with a subformula replaced by an atom named like its '
+              'printed form), each member called on 2 of 3 structures, in two fresh interpreters in opposite orders; every third pair replaces a '
+              'whole CTL state subformula so that both members go through CTL.modelcheck)')
     rng = R.rng
     if R.thorough:
-        n_hist, maxlen, p_text, p_textp, p_relabel = 2500, 40, 0.08, 0.2, 0.05
+        n_hist, maxlen, p_text, p_textp, p_relabel, p_edit, p_rebuild, n_churn = 2500, 40, 0.08, 0.2, 0.05, 0.04, 0.01, 300
+        n_evolving = 400
     else:
-        n_hist, maxlen, p_text, p_textp, p_relabel = 320, 12, 0.2, 0.16, 0.12
+        n_hist, maxlen, p_text, p_textp, p_relabel, p_edit, p_rebuild, n_churn = 320, 12, 0.2, 0.16, 0.12, 0.08, 0.02, 40
+        n_evolving = 120
     runs = []
     all_cmds = set()
     parse_checks = {}
-    for h in range(n_hist):
-        desc = gen_pool(rng)
-        desc = json.loads(json.dumps(desc))          # exactly what a replay will see
-        hist = gen_history(rng, desc, maxlen, p_text, p_textp, p_relabel)
+    rng_churn = random.Random(R.seed + 7070)
+    rebuilds = [0, 0]
+    for h in range(n_hist + n_evolving + n_churn):
+        if h < n_hist:
+            desc = gen_pool(rng)
+            desc = json.loads(json.dumps(desc))          # exactly what a replay will see
+            hist = gen_history(rng, desc, maxlen, p_text, p_textp, p_relabel, p_edit, p_rebuild)
+        else:
+            desc, hist = (gen_evolving if h < n_hist + n_evolving else gen_churn)(rng_churn)
+            desc = json.loads(json.dumps(desc))
         hist = json.loads(json.dumps(hist))
         if TIMEOUTS[0] >= 3:
             R.cov['stopped_after_call_timeouts'] = TIMEOUTS[0]
@@ -916,6 +1243,11 @@ def run(R):
         for (fi, plang), t in pool.texts.items():
             parse_checks[sx_str(['parse', plang, Q(t)])] = (plang, t, pool.F[fi])
         runs.append((desc, hist, obs, cmds))
+        rebuilds[0] += pool.rebuilds
+        rebuilds[1] += pool.rebuilds_same_address
+        if h >= n_hist:
+            R.count('evolving_design_episodes' if h < n_hist + n_evolving else 'churn_episodes')
+    R.cov['structures_discarded_and_rebuilt'] = {'rebuilds': rebuilds[0], 'new_object_at_the_address_of_the_discarded_one': rebuilds[1]}
     # the text given to a text call denotes, for the MODEL parser of the language whose parser is used, the formula
     # the model checker is asked about (a failure here is a defect of this check's printer, not of the library)
     pk = sorted(parse_checks)
@@ -927,8 +1259,12 @@ def run(R):
     expectations(sorted(all_cmds))
     R.cov['model_commands_distinct'] = len(all_cmds)
     order_independence(R)
-    shrunk = 0
-    for ri, (desc, hist, obs, cmds) in enumerate(runs):
+    shrunk = {'general': 0, 'evolving': 0, 'churn': 0}
+    # verdicts: the two dedicated streams (short, self-contained episodes: the most readable counterexamples) first, then the
+    # general histories; `earlier` (candidates for a prelude) is always the prefix in EXECUTION order
+    for ri in list(range(n_hist, len(runs))) + list(range(min(n_hist, len(runs)))):
+        desc, hist, obs, cmds = runs[ri]
+        stream = 'general' if ri < n_hist else 'evolving' if ri < n_hist + n_evolving else 'churn'
         exps = expectations(cmds)
         R.evaluations += len(obs)
         R.count('histories')
@@ -947,14 +1283,21 @@ def run(R):
                     R.count('calls_on_structures_with_%s_states' % cls)
                     if o['res'][0] == 'ok' and o['res'][1]:
                         R.count('calls_on_structures_with_%s_states_nonempty_result' % cls)
+            elif st['kind'] == 'edit':
+                for op in st['ops']:
+                    R.count('edit_' + op[0])
+                if any(op[0] == 'label' for op in st['ops']):
+                    R.count('edit_new_state')
+            elif st['kind'] == 'rebuild':
+                R.count('rebuild')
             else:
                 R.count('relabel_' + st['route'] + ('_shared_sets' if st.get('share') else '') + ('_nonstate_key' if st.get('extra') else ''))
             if step_fails(o, e):
                 bad = j
                 break
         if bad is not None:
-            report(R, desc, hist, obs, exps, bad, shrunk < 3, [(d, h) for d, h, _, _ in runs[:ri]])
-            shrunk += 1
+            report(R, desc, hist, obs, exps, bad, shrunk[stream] < (3 if stream == 'general' else 2), [(d, h) for d, h, _, _ in runs[:ri]])
+            shrunk[stream] += 1
             if len(R.violations) >= 25:
                 break
             continue
@@ -968,17 +1311,18 @@ def run(R):
             if k in seen and j - seen[k] >= 2:
                 rep = True
             seen.setdefault(k, j)
-        same_call, epoch, last = {}, {}, {}
+        same_call, epoch, last, lastkind = {}, {}, {}, {}
         for st, o in zip(hist, obs):
             if not is_call(st):
                 epoch[st['s']] = epoch.get(st['s'], 0) + 1
+                lastkind[st['s']] = st['kind']
                 continue
             ck = call_key(st)
             same_call.setdefault(ck + (epoch.get(st['s'], 0),), []).append(o['res'])
             if ck in last and last[ck][0] != epoch.get(st['s'], 0):
-                R.count('requery_after_relabel')
+                R.count('requery_after_' + lastkind[st['s']])
                 if last[ck][1] != o['res']:
-                    R.count('requery_after_relabel_with_another_result')
+                    R.count('requery_after_%s_with_another_result' % lastkind[st['s']])
             last[ck] = (epoch.get(st['s'], 0), o['res'])
         nrep = sum(1 for v in same_call.values() if len(v) > 1)
         R.count('calls_executed_more_than_once', nrep)
@@ -1022,7 +1366,7 @@ def report(R, desc, hist, obs, exps, j, do_shrink, earlier):
         except Exception as ex:  # noqa
             data['shrink_failed'] = repr(ex)
     else:
-        data['not_shrunk'] = ('only the first 3 failing histories of a run are re-run in fresh interpreters and shrunk; if this one depends on '
+        data['not_shrunk'] = ('only the first 3 failing general histories (and the first 2 of the evolving-design and of the churn stream) of a run are re-run in fresh interpreters and shrunk; if this one depends on '
                               'module-level state left by EARLIER histories of the run, its replay alone does not reproduce it')
     ncalls = (sum(1 for s in data['history'][:-1] if is_call(s))
               + sum(1 for e in data['prelude'] for s in e['hist'] if is_call(s)))
@@ -1032,7 +1376,7 @@ def report(R, desc, hist, obs, exps, j, do_shrink, earlier):
         what = 'modelcheck modified the caller\'s objects / leaked or invented an object: ' + '; '.join(o['notes'])[:400]
     elif ncalls >= 1 and data.get('reproduced_in_fresh_interpreter') and alone is not None and not step_fails(alone, alone['expected']):
         what = ('history dependence: %s returns %s after %d earlier call(s); the model and the same call alone%s in a fresh interpreter give %s'
-                % (data['step'], res, ncalls, ' (after only the caller\'s own relabelling of that structure)' if len(alone['steps']) > 1 else '', e))
+                % (data['step'], res, ncalls, ' (after only the caller\'s own relabelling / editing / building of that structure)' if len(alone['steps']) > 1 else '', e))
     elif other:
         what = 'history dependence: two executions of %s in one history differ (%s vs %s; model %s)' % (
             data['step'], obs[other[0]]['res'], o['res'], exps[j])
@@ -1070,8 +1414,9 @@ def replay(R, data):
         if is_call(st):
             print('step %2d %-60s impl=%s model=%s %s %s' % (j, step_str(desc, st), o['res'], e, '; '.join(o['notes']), '<-- VIOLATION' if f else ''))
         else:
-            print('step %2d %-60s labelling now %s %s %s' % (j, step_str(desc, st), o.get('labelling_now'), '; '.join(o['notes']),
-                                                             '<-- VIOLATION' if f else ''))
+            print('step %2d %-60s %s %s %s' % (j, step_str(desc, st), 'labelling now %s' % o['labelling_now'] if 'labelling_now' in o
+                                               else 'structure now %s' % o.get('structure_now'), '; '.join(o['notes']),
+                                               '<-- VIOLATION' if f else ''))
     if bad:
         R.violation('replayed: history violates purity / differs from the model', d)
 
